@@ -14,6 +14,7 @@ import (
 	"go/parser"
 	"go/token"
 	"io"
+	"net"
 	"os"
 	"path/filepath"
 	"runtime"
@@ -123,6 +124,53 @@ type injSpec struct {
 	seen  int
 	done  bool
 	fired bool
+}
+
+// wconn: the writer half handed to AcceptConnection next to a pstream; it is a net.Conn, so the session keeps it as the
+// connection's RawConn and handleHandshake asks it for RemoteAddr() BETWEEN fetching the base connection record and
+// registering the control record — the one interleaving point inside section A of the handshake (injection point 9).
+type wconn struct {
+	t *transport
+	n int
+	w *world
+}
+
+type vaddr string
+
+func (a vaddr) Network() string { return "verif" }
+func (a vaddr) String() string  { return string(a) }
+
+func (c *wconn) Read(b []byte) (int, error)         { return 0, io.EOF }
+func (c *wconn) Write(b []byte) (int, error)        { return c.t.Write(b) }
+func (c *wconn) Close() error                       { c.t.closed = true; return nil }
+func (c *wconn) LocalAddr() net.Addr                { return vaddr("server") }
+func (c *wconn) SetDeadline(t time.Time) error      { return nil }
+func (c *wconn) SetReadDeadline(t time.Time) error  { return nil }
+func (c *wconn) SetWriteDeadline(t time.Time) error { return nil }
+func (c *wconn) RemoteAddr() net.Addr {
+	c.w.pointAddr(c.n)
+	return vaddr(c.t.id)
+}
+
+func (w *world) pointAddr(conn int) {
+	in := w.inj
+	if in == nil || in.done || in.at != 9 || w.sm.VerifClientRegistry().VerifLocked() {
+		return
+	}
+	in.done = true
+	if c := arg(in.op, 0); (c == opHandshake || c == opHeartbeat) && arg(in.op, 1) == conn {
+		return
+	}
+	in.fired = true
+	w.inj = nil
+	w.stampNew()
+	w.lateReg = conn // a close injected here is followed by the registration: the connection is not "closed for good" yet
+	sk, sx := w.auth.kind, w.auth.x // the host's auth handler has not run yet: keep its script
+	w.apply(in.op)
+	w.auth.kind, w.auth.x = sk, sx
+	w.lateReg = -1
+	w.stampNew()
+	w.inj = in
 }
 
 func (w *world) point(conn int) {
@@ -337,7 +385,8 @@ type world struct {
 	ctx           context.Context
 	pure          bool   // only control-type logins / heartbeats / closes / kicks / sweeps: nothing that legitimately leaves an authenticated record un-indexed
 	refused       *gconn // adapter-driven accept of the current operation that was refused
-	mayUnregister bool   // one of two concurrently started operations removes a record without closing its stream
+	lateReg       int
+	mayUnregister bool // one of two concurrently started operations removes a record without closing its stream
 }
 
 func cname(c int) string { return fmt.Sprintf("c%d", c) }
@@ -445,6 +494,7 @@ func newWorld(cfg cfgIn, ops [][]int) *world {
 		objTr: map[*session.ControlConnection]*transport{}, seen: map[*session.ControlConnection]int{}, epoch: time.Now().Add(-1000 * hour), dead: map[int]bool{}}
 	sm.SetAuthHandler(w.auth)
 	w.ctx = ctx
+	w.lateReg = -1
 	w.gc = map[int]*gconn{}
 	if cfg.CC != 0 {
 		w.cloud = &cloudDouble{cfg: cfg}
@@ -631,7 +681,7 @@ func (w *world) apply(o []int) (int, int) {
 		var err error
 		if w.pk {
 			ps := &pstream{t: t, n: c, w: w}
-			_, err = sm.AcceptConnection(ps, ps)
+			_, err = sm.AcceptConnection(ps, &wconn{t: t, n: c, w: w})
 		} else {
 			_, err = sm.AcceptConnection(t, t)
 		}
@@ -657,7 +707,7 @@ func (w *world) apply(o []int) (int, int) {
 		return b2i(err != nil), 0
 	case opCloseConn:
 		err := sm.CloseConnection(id)
-		if _, ok := w.tr[c]; ok {
+		if _, ok := w.tr[c]; ok && w.lateReg != c {
 			w.dead[c] = true
 		}
 		return b2i(err != nil), 0
@@ -1161,7 +1211,14 @@ func runExhaustive(c *caseIn) interface{} {
 				case opKick:
 					pts = 4
 				}
+				ats := []int{}
 				for at := 0; at < pts; at++ {
+					ats = append(ats, at)
+				}
+				if arg(ops[i], 0) == opHandshake {
+					ats = append(ats, 9) // RemoteAddr(): between the base-record fetch and the registration of the control record
+				}
+				for _, at := range ats {
 					for _, j := range c.Inject {
 						v := append([][]int{}, ops...)
 						h := append([]int{}, ops[i]...)
